@@ -50,7 +50,10 @@ static void body(void) {
     int level = vx_deviate(3); level = level == 0 ? 3 : level == 1 ? 19 : -5; unsigned forcedID = vx_deviate(2) ? 77777u : 0;
     if (f == 31 && (alg == 0 || alg == 4)) f = 24;       /* 2^31 counters = 8 GiB: memory, not the algorithm */
     vx_label("%s count=%d size=%d content=%d vary=%d cap=%zu k=%u d=%u f=%u accel=%u steps=%u split=%.2f shrink=%u threads=%u level=%d id=%u", ALG[alg], count, ssize, content, vary, cap, k, d, f, accel, steps, split, shrink, threads, level, forcedID);
-    size_t total = build_samples(count, ssize, content, vary); (void)total;
+    size_t total = build_samples(count, ssize, content, vary);
+    /* the trainers get an allocation of exactly the samples' size (and a sizes array of exactly `count` entries), so a read past either end meets a redzone */
+    u8* const samples = (u8*)malloc(total ? total : 1); memcpy(samples, g_samples, total);
+    size_t* const sizes = (size_t*)malloc(sizeof(size_t) * (size_t)(count ? count : 1)); memcpy(sizes, g_sizes, sizeof(size_t) * (size_t)count);
     ZDICT_params_t zp; memset(&zp, 0, sizeof zp); zp.compressionLevel = level; zp.dictID = forcedID;
     size_t res[2] = {0, 0};
     for (int run = 0; run < 2; run++) {
@@ -59,47 +62,49 @@ static void body(void) {
         vs_begin(&cfg);
         size_t r;
         switch (alg) {
-        case 0: { ZDICT_fastCover_params_t p; memset(&p, 0, sizeof p); p.k = k; p.d = d; p.f = f; p.accel = accel; p.steps = steps; p.nbThreads = threads; p.splitPoint = split; p.shrinkDict = shrink; p.zParams = zp; r = ZDICT_trainFromBuffer_fastCover(dst, cap, g_samples, g_sizes, (unsigned)count, p); break; }
-        case 1: r = ZDICT_trainFromBuffer(dst, cap, g_samples, g_sizes, (unsigned)count); break;
-        case 2: { ZDICT_cover_params_t p; memset(&p, 0, sizeof p); p.k = k; p.d = d; p.steps = steps; p.nbThreads = threads; p.splitPoint = split; p.shrinkDict = shrink; p.zParams = zp; r = ZDICT_trainFromBuffer_cover(dst, cap, g_samples, g_sizes, (unsigned)count, p); break; }
-        case 3: { ZDICT_cover_params_t p; memset(&p, 0, sizeof p); p.k = k == 64 ? 0 : k; p.d = d == 8 ? 0 : d; p.steps = steps; p.nbThreads = threads; p.splitPoint = split; p.shrinkDict = shrink; p.zParams = zp; r = ZDICT_optimizeTrainFromBuffer_cover(dst, cap, g_samples, g_sizes, (unsigned)count, &p); break; }
-        case 4: { ZDICT_fastCover_params_t p; memset(&p, 0, sizeof p); p.k = k == 64 ? 0 : k; p.d = d == 8 ? 0 : d; p.f = f; p.accel = accel; p.steps = steps; p.nbThreads = threads; p.splitPoint = split; p.shrinkDict = shrink; p.zParams = zp; r = ZDICT_optimizeTrainFromBuffer_fastCover(dst, cap, g_samples, g_sizes, (unsigned)count, &p); break; }
-        case 5: { ZDICT_legacy_params_t p; memset(&p, 0, sizeof p); p.selectivityLevel = k == 64 ? 0 : 9; p.zParams = zp; r = ZDICT_trainFromBuffer_legacy(dst, cap, g_samples, g_sizes, (unsigned)count, p); break; }
-        case 6: { size_t clen = total < 2000 ? total : 2000; r = ZDICT_finalizeDictionary(dst, cap, g_samples, clen, g_samples, g_sizes, (unsigned)count, zp); break; }
-        default: { size_t clen = total < 300 ? total : 300; if (cap < clen || clen < 8) { r = (size_t)-ZSTD_error_dstSize_tooSmall; break; }   /* the caller-supplied content must itself be a usable raw dictionary (>= 8 bytes) */ memcpy(dst + cap - clen, g_samples, clen); r = ZDICT_addEntropyTablesFromBuffer(dst, clen, cap, g_samples, g_sizes, (unsigned)count); break; }
+        case 0: { ZDICT_fastCover_params_t p; memset(&p, 0, sizeof p); p.k = k; p.d = d; p.f = f; p.accel = accel; p.steps = steps; p.nbThreads = threads; p.splitPoint = split; p.shrinkDict = shrink; p.zParams = zp; r = ZDICT_trainFromBuffer_fastCover(dst, cap, samples, sizes, (unsigned)count, p); break; }
+        case 1: r = ZDICT_trainFromBuffer(dst, cap, samples, sizes, (unsigned)count); break;
+        case 2: { ZDICT_cover_params_t p; memset(&p, 0, sizeof p); p.k = k; p.d = d; p.steps = steps; p.nbThreads = threads; p.splitPoint = split; p.shrinkDict = shrink; p.zParams = zp; r = ZDICT_trainFromBuffer_cover(dst, cap, samples, sizes, (unsigned)count, p); break; }
+        case 3: { ZDICT_cover_params_t p; memset(&p, 0, sizeof p); p.k = k == 64 ? 0 : k; p.d = d == 8 ? 0 : d; p.steps = steps; p.nbThreads = threads; p.splitPoint = split; p.shrinkDict = shrink; p.zParams = zp; r = ZDICT_optimizeTrainFromBuffer_cover(dst, cap, samples, sizes, (unsigned)count, &p); break; }
+        case 4: { ZDICT_fastCover_params_t p; memset(&p, 0, sizeof p); p.k = k == 64 ? 0 : k; p.d = d == 8 ? 0 : d; p.f = f; p.accel = accel; p.steps = steps; p.nbThreads = threads; p.splitPoint = split; p.shrinkDict = shrink; p.zParams = zp; r = ZDICT_optimizeTrainFromBuffer_fastCover(dst, cap, samples, sizes, (unsigned)count, &p); break; }
+        case 5: { ZDICT_legacy_params_t p; memset(&p, 0, sizeof p); p.selectivityLevel = k == 64 ? 0 : 9; p.zParams = zp; r = ZDICT_trainFromBuffer_legacy(dst, cap, samples, sizes, (unsigned)count, p); break; }
+        case 6: { size_t clen = total < 2000 ? total : 2000; r = ZDICT_finalizeDictionary(dst, cap, samples, clen, samples, sizes, (unsigned)count, zp); break; }
+        default: { size_t clen = total < 300 ? total : 300; if (cap < clen || clen < 8) { r = (size_t)-ZSTD_error_dstSize_tooSmall; break; }   /* the caller-supplied content must itself be a usable raw dictionary (>= 8 bytes) */ memcpy(dst + cap - clen, samples, clen); r = ZDICT_addEntropyTablesFromBuffer(dst, clen, cap, samples, sizes, (unsigned)count); break; }
         }
         vs_end();
         res[run] = r;
-        if (vx_failed) return;
+        if (vx_failed) goto out;
         if (!ZDICT_isError(r)) {
-            if (r > cap) { vx_fail("%s returned %zu > capacity %zu", ALG[alg], r, cap); return; }
-            for (size_t g = 0; g < 16; g++) if (dst[cap + g] != 0xCD) { vx_fail("%s wrote beyond the dictionary capacity", ALG[alg]); return; }
+            if (r > cap) { vx_fail("%s returned %zu > capacity %zu", ALG[alg], r, cap); goto out; }
+            for (size_t g = 0; g < 16; g++) if (dst[cap + g] != 0xCD) { vx_fail("%s wrote beyond the dictionary capacity", ALG[alg]); goto out; }
         }
         if (threads > 1 && !g_explore) break;          /* determinism is only claimed for single-threaded runs */
         if (threads > 1) break;
     }
     size_t r = res[0];
     if (threads <= 1) {
-        if (ZDICT_isError(res[0]) != ZDICT_isError(res[1]) || (!ZDICT_isError(r) && (res[0] != res[1] || memcmp(g_dict, g_dict2, r)))) { vx_fail("%s: two single-threaded runs with the same input give different results", ALG[alg]); return; }
+        if (ZDICT_isError(res[0]) != ZDICT_isError(res[1]) || (!ZDICT_isError(r) && (res[0] != res[1] || memcmp(g_dict, g_dict2, r)))) { vx_fail("%s: two single-threaded runs with the same input give different results", ALG[alg]); goto out; }
     }
-    if (ZDICT_isError(r) || r == 0) { vx_obs_u64(ZDICT_isError(r) ? 1 : 2); vx_stat_add("refusals", 1); return; }
+    if (ZDICT_isError(r) || r == 0) { vx_obs_u64(ZDICT_isError(r) ? 1 : 2); vx_stat_add("refusals", 1); goto out; }
     /* ---- a produced dictionary must be usable ---- */
     ZSTD_CDict* cd = ZSTD_createCDict(g_dict, r, 3); ZSTD_DDict* dd = ZSTD_createDDict(g_dict, r);
-    if (!cd || !dd) { vx_fail("%s produced a %zu-byte dictionary that the %s refuses to load", ALG[alg], r, cd ? "decompressor" : "compressor"); ZSTD_freeCDict(cd); ZSTD_freeDDict(dd); return; }
+    if (!cd || !dd) { vx_fail("%s produced a %zu-byte dictionary that the %s refuses to load", ALG[alg], r, cd ? "decompressor" : "compressor"); ZSTD_freeCDict(cd); ZSTD_freeDDict(dd); goto out; }
     unsigned id1 = ZDICT_getDictID(g_dict, r), id2 = ZSTD_getDictID_fromDict(g_dict, r), id3 = ZSTD_getDictID_fromCDict(cd), id4 = ZSTD_getDictID_fromDDict(dd);
     if (id1 == 0 || id1 != id2 || id2 != id3 || id3 != id4) vx_fail("%s: dictionary ID queries give %u / %u / %u / %u (must be equal and non-zero)", ALG[alg], id1, id2, id3, id4);
     else if (forcedID && alg != 1 && alg != 7 && id1 != forcedID) vx_fail("%s: requested dictionary ID %u, got %u", ALG[alg], forcedID, id1);
     size_t off = 0; ZSTD_CCtx* c = ZSTD_createCCtx(); ZSTD_DCtx* dc = ZSTD_createDCtx();
     for (int i = 0; i < count && !vx_failed; i++) {
-        size_t cs = ZSTD_compress_usingCDict(c, g_c, 1u << 17, g_samples + off, g_sizes[i], cd);
+        size_t cs = ZSTD_compress_usingCDict(c, g_c, 1u << 17, samples + off, sizes[i], cd);
         if (ZSTD_isError(cs)) { vx_fail("%s: sample %d does not compress with the trained dictionary: %s", ALG[alg], i, ZSTD_getErrorName(cs)); break; }
         size_t ds = ZSTD_decompress_usingDDict(dc, g_o, 1u << 17, g_c, cs, dd);
-        if (ZSTD_isError(ds) || ds != g_sizes[i] || memcmp(g_o, g_samples + off, ds)) { vx_fail("%s: sample %d does not round trip with the trained dictionary", ALG[alg], i); break; }
-        off += g_sizes[i];
+        if (ZSTD_isError(ds) || ds != sizes[i] || memcmp(g_o, samples + off, ds)) { vx_fail("%s: sample %d does not round trip with the trained dictionary", ALG[alg], i); break; }
+        off += sizes[i];
     }
     ZSTD_freeCCtx(c); ZSTD_freeDCtx(dc); ZSTD_freeCDict(cd); ZSTD_freeDDict(dd);
     vx_obs_u64(vx_hash(g_dict, r)); vx_nontrivial(); vx_stat_add("dictionaries_produced", 1); vx_stat_max("threads_max", vs_nthreads());
     if (vx_want_sample()) vx_sample("%s count=%d size=%d content=%d cap=%zu k=%u d=%u threads=%u -> %zu-byte dictionary, ID %u", ALG[alg], count, ssize, content, cap, k, d, threads, r, id1);
+out:
+    free(samples); free(sizes);
 }
 
 int main(int argc, char** argv) { return vx_main(argc, argv, init, body); }
